@@ -561,7 +561,15 @@ pub fn run(tier: &str, seed: u64) -> i32 {
     report.add(explore(&g, &budget, seed, |s, ctx| {
         let mut spec = SettingsSpec::faithful();
         spec.root = "root".into();
-        check_case(&Case::new(RegSrc::Prog(s.program()), spec, "D-graph"), ctx);
+        check_case(&Case::new(RegSrc::Prog(s.program()), spec.clone(), "D-graph"), ctx);
+        // two recursive derives of std traits, on the first and on the second node: every item below either root
+        // must end up with what the derived impls of the items above it require (rule 8)
+        if s.nodes.len() >= 2 {
+            let mut spec = spec;
+            spec.derives_for.push((s.path_of(0), vec!["Clone".into()], true));
+            spec.derives_for.push((s.path_of(1), vec!["PartialEq".into()], true));
+            check_case(&Case::new(RegSrc::Prog(s.program()), spec, "D-graph, recursive Clone on node 0 and recursive PartialEq on node 1"), ctx);
+        }
     }));
     // D-chain
     let mut chain: Vec<Case> = vec![];
@@ -721,7 +729,11 @@ pub fn compile_tier(_seed: u64, quick: bool) -> Result<Stats, String> {
             ));
         }
     }
-    let g = crate::graph::quick_graph(2);
+    let mut g = crate::graph::quick_graph(2);
+    if quick {
+        // (the cycles of length three go through rustc in the thorough tier; rule 6 decides them in both)
+        g.extra_initial.clear();
+    }
     let (all, _, _) = enumerate(&g, 2, 1_000_000);
     for (_, s) in &all {
         progs.push((
